@@ -565,6 +565,52 @@ func nonTestCallers(e *env, method string) ([]string, error) {
 	return out, err
 }
 
+// saveSignedEvents: the assignments "<lhs>=<rhs>" and calls "call:<callee>" of saveSigned in source order
+// (the `if pv.pv == nil { pv.pv = pv.Copy() }` guard contributes "pv.pv=pv.Copy()")
+func saveSignedEvents(e *env) ([]string, error) {
+	fd, err := e.funcDecl(c04File, "FilePV", "saveSigned")
+	if err != nil {
+		return nil, err
+	}
+	var txt func(x ast.Expr) string
+	txt = func(x ast.Expr) string {
+		switch v := x.(type) {
+		case *ast.Ident:
+			return v.Name
+		case *ast.SelectorExpr:
+			return txt(v.X) + "." + v.Sel.Name
+		case *ast.CallExpr:
+			return txt(v.Fun) + "()"
+		}
+		return "?"
+	}
+	var evs []string
+	ast.Inspect(fd.Body, func(n ast.Node) bool {
+		switch v := n.(type) {
+		case *ast.AssignStmt:
+			for i, l := range v.Lhs {
+				if i < len(v.Rhs) {
+					evs = append(evs, txt(l)+"="+txt(v.Rhs[i]))
+				}
+			}
+			return false
+		case *ast.ExprStmt:
+			if c, ok := v.X.(*ast.CallExpr); ok {
+				evs = append(evs, "call:"+txt(c.Fun))
+			}
+			return false
+		case *ast.GoStmt:
+			evs = append(evs, "go:"+txt(v.Call.Fun))
+			return false
+		case *ast.DeferStmt:
+			evs = append(evs, "defer:"+txt(v.Call.Fun))
+			return false
+		}
+		return true
+	})
+	return evs, nil
+}
+
 func init() {
 	register("FilePVCheck", func(e *env) (string, error) {
 		var sb strings.Builder
@@ -587,6 +633,12 @@ func init() {
 			sb.WriteString(fmt.Sprintf("\n/-- `%s`: check / sign / save / signature-assignment events in source order -/\ndef %sEvents : List String := %s\n", fn[0], fn[0], leanStrList(evs)))
 			e.facts = append(e.facts, fact{Module: "FilePVCheck", Kind: "callorder", Name: fn[0], Value: evs})
 		}
+		sevs, err := saveSignedEvents(e)
+		if err != nil {
+			return "", err
+		}
+		sb.WriteString("\n/-- `saveSigned`: assignments and calls in source order -/\ndef saveSignedEvents : List String := " + leanStrList(sevs) + "\n")
+		e.facts = append(e.facts, fact{Module: "FilePVCheck", Kind: "callorder", Name: "saveSigned", Value: sevs})
 		callers, err := nonTestCallers(e, "SignVoteWithoutSave")
 		if err != nil {
 			return "", err
